@@ -14,7 +14,7 @@ META = {
         "technique": "Lean 4 refinement proof (induction over call sequences) on regenerated setters; exhaustive differential enumeration",
     },
     "C12": {
-        "text": "Proof of the termination decision: the regenerated tail of logContext equals the rule of the statement (Panic -> panic(msg), Fatal -> os.Exit(-3) = status 253; never when not admitted, with no-interrupt, or under go test without interrupt-always; no other severity, no other log/slog level) for all inputs; the record is printed before. The runtime part (os.Exit, panic) is exercised by a child-process matrix in production and go-test mode.",
+        "text": "Proof of the termination decision: the regenerated tail of logContext equals the rule of the statement (Panic -> panic(msg), Fatal -> os.Exit(-3) = status 253; never when not admitted, with no-interrupt, or under go test without interrupt-always; no other severity, no other log/slog level) for all inputs; the record is printed before; for whole programs of calls (runProgram, induction): a program without Panic/Fatal calls runs to its end emitting exactly its admitted calls (program_runs_through), and when a call ends the program its record is the last one emitted (terminating_record_is_last). The runtime part (os.Exit, panic) is exercised by a child-process matrix in production and go-test mode.",
         "design_ref": "DESIGN.md §7 C12",
         "note": "Trusted: Lean kernel; extractor; os.Exit/panic of the Go runtime; is.InTesting(); the admission part rests on C01's theorems.",
         "technique": "Lean 4 proof over the regenerated decision function (case analysis, omega); child-process differential matrix",
